@@ -5,20 +5,27 @@ import S3V.Model.Host
 namespace S3V.Host
 open S3V S3V.Net
 
-/-- two domains overlap as the code defines it: one `ends_with` the other -/
+/-- one text `ends_with` the other -/
 def Overlap (a b : Bytes) : Prop := a <:+ b ∨ b <:+ a
 
 theorem Overlap.symm {a b : Bytes} (h : Overlap a b) : Overlap b a := h.elim Or.inr Or.inl
 
+/-- two domains overlap as the code defines it: once ASCII case is ignored
+    (`to_ascii_lowercase` of both), one `ends_with` the other — the notion that matters for the
+    (case-insensitive) resolution of hosts -/
+def OverlapCI (a b : Bytes) : Prop := Overlap (toAsciiLower a) (toAsciiLower b)
+
+theorem OverlapCI.symm {a b : Bytes} (h : OverlapCI a b) : OverlapCI b a := Overlap.symm h
+
 theorem overlapsAny_iff (v : List Bytes) (d : Bytes) :
-    overlapsAny v d = true ↔ ∃ o ∈ v, Overlap o d := by
-  simp [overlapsAny, Overlap, List.any_eq_true]
+    overlapsAny v d = true ↔ ∃ o ∈ v, OverlapCI o d := by
+  simp [overlapsAny, Overlap, OverlapCI, List.any_eq_true]
 
 /-- the loop of `MultiDomain::new` started with accepted vector `v` -/
 theorem multiNewLoop_ok (ds v w : List Bytes) :
     multiNewLoop ds v = .ok w ↔
       w = v ++ ds ∧ v ++ ds ≠ [] ∧ (∀ d ∈ ds, isValidDomain d = true) ∧
-      (∀ d ∈ ds, ∀ o ∈ v, ¬ Overlap o d) ∧ ds.Pairwise (fun a b => ¬ Overlap a b) := by
+      (∀ d ∈ ds, ∀ o ∈ v, ¬ OverlapCI o d) ∧ ds.Pairwise (fun a b => ¬ OverlapCI a b) := by
   induction ds generalizing v with
   | nil =>
     cases v with
@@ -38,7 +45,7 @@ theorem multiNewLoop_ok (ds v w : List Bytes) :
         · rintro ⟨_, _, _, hcross, _⟩
           obtain ⟨o, ho1, ho2⟩ := (overlapsAny_iff v d).mp ho
           exact absurd ho2 (hcross d (by simp) o ho1)
-      · have ho' : ¬ ∃ o ∈ v, Overlap o d := fun h => ho ((overlapsAny_iff v d).mpr h)
+      · have ho' : ¬ ∃ o ∈ v, OverlapCI o d := fun h => ho ((overlapsAny_iff v d).mpr h)
         have ho2 : overlapsAny v d = false := by
           cases h : overlapsAny v d with
           | false => rfl
@@ -68,19 +75,15 @@ theorem multiNewLoop_ok (ds v w : List Bytes) :
       · rintro ⟨_, _, hval, _, _⟩
         exact absurd (hval d (by simp)) hv
 
-/-- `MultiDomain::new` succeeds exactly on non-empty lists of valid, pairwise non-overlapping
-    domains, and keeps them in the order given -/
+/-- `MultiDomain::new` succeeds exactly on non-empty lists of valid domains no two of which
+    overlap once ASCII case is ignored, and keeps them in the order given -/
 theorem multiNew_ok (ds w : List Bytes) :
     multiNew ds = .ok w ↔
       w = ds ∧ ds ≠ [] ∧ (∀ d ∈ ds, isValidDomain d = true) ∧
-      ds.Pairwise (fun a b => ¬ Overlap a b) := by
+      ds.Pairwise (fun a b => ¬ OverlapCI a b) := by
   unfold multiNew
   rw [multiNewLoop_ok]
   simp
-
-/-- overlap once ASCII case is ignored — the notion that matters for the (case-insensitive)
-    resolution of hosts -/
-def OverlapCI (a b : Bytes) : Prop := Overlap (toAsciiLower a) (toAsciiLower b)
 
 theorem toAsciiLower_length (s : Bytes) : (toAsciiLower s).length = s.length := by
   simp [toAsciiLower]
@@ -152,15 +155,21 @@ theorem unique_match {ds : List Bytes} (hp : ds.Pairwise (fun a b => ¬ OverlapC
   · exact absurd (overlap_of_both_match h1 h2)
       (pairwise_forall (fun a b h hba => h (Overlap.symm hba)) hp m1 m2 he)
 
-/-- for a configuration written in lower case, the code's (case-sensitive) overlap test is the
-    case-insensitive one -/
-theorem pairwiseCI_of_lower {ds : List Bytes} (hl : ∀ d ∈ ds, toAsciiLower d = d)
-    (hp : ds.Pairwise (fun a b => ¬ Overlap a b)) : ds.Pairwise (fun a b => ¬ OverlapCI a b) := by
-  refine hp.imp_of_mem ?_
-  intro a b ha hb h hci
-  unfold OverlapCI at hci
-  rw [hl a ha, hl b hb] at hci
-  exact h hci
+/-- the members of an accepted configuration do not overlap, ASCII case ignored -/
+theorem pairwiseCI_of_accepted {ds v : List Bytes} (h : multiNew ds = .ok v) :
+    v.Pairwise (fun a b => ¬ OverlapCI a b) := by
+  obtain ⟨rfl, _, _, hp⟩ := (multiNew_ok ds v).mp h
+  exact hp
+
+/-- ASCII lower-casing keeps suffixes -/
+theorem toAsciiLower_suffix {a b : Bytes} (h : a <:+ b) : toAsciiLower a <:+ toAsciiLower b := by
+  obtain ⟨t, rfl⟩ := h
+  rw [toAsciiLower_append]
+  exact List.suffix_append _ _
+
+/-- overlap as written is overlap with case ignored -/
+theorem OverlapCI.of_overlap {a b : Bytes} (h : Overlap a b) : OverlapCI a b :=
+  h.elim (fun h => Or.inl (toAsciiLower_suffix h)) (fun h => Or.inr (toAsciiLower_suffix h))
 
 theorem firstMatch_some {ds : List Bytes} {host : Bytes} {vh : VirtualHost}
     (h : firstMatch ds host = some vh) : ∃ d ∈ ds, parseHostHeader d host = some vh := by
